@@ -1113,6 +1113,42 @@ def _check_wiring(c, conts, edges, r, cq):
 
 
 # ---------------------------------------------------------------------------
+class FnInterp(Interp):
+    """Interp that also executes stores to attributes of `self` (kept in the environment under their dotted name)"""
+    def store_other(self, target, value, stmt):
+        if isinstance(target, ast.Attribute):
+            self.env[norm(target)] = value
+        else:
+            super().store_other(target, value, stmt)
+
+
+class ImgMem(SymMem):
+    """the backing bytearray as an opaque image: slice loads return ('image', lo, hi), slice stores are recorded"""
+    def __init__(self, size=1 << 20):
+        super().__init__()
+        self.size = size
+        self.writes = []
+
+    def __len__(self):
+        return self.size
+
+    @staticmethod
+    def _bounds(idx):
+        if not isinstance(idx, slice) or idx.step is not None:
+            raise AnalysisError("image access other than a plain slice")
+        lo = 0 if idx.start is None else int(idx.start)
+        hi = None if idx.stop is None else int(idx.stop)
+        return lo, hi
+
+    def load(self, idx):
+        lo, hi = self._bounds(idx)
+        return ('image', lo, hi)
+
+    def store(self, idx, value):
+        lo, hi = self._bounds(idx)
+        self.writes.append((lo, hi, value))
+
+
 def _bits_ctor(nb, v=0):
     return ('Bits', int(nb), SB.of(v))
 
@@ -1163,45 +1199,47 @@ def rule_endian(repo):
                 r.bad(bm, 'write_bytearray_bits', cons, f"writing {n} byte(s) at A leaves {show}"
                       f"{' and ' + err if err else ''}; little-endian requires arr[A+k] = byte k of the data for k < {n} and "
                       f"nothing else", wr.lineno)
-    # read_mem / write_mem of MagicMemoryFL
+    # read_mem / write_mem of MagicMemoryFL: the whole method is evaluated (helper locals, asserts, any statement order)
     fm = repo.mod(FL)
+    store = [n for n in ast.walk(fm.get_class('MagicMemoryFL')) if isinstance(n, ast.Assign) and isinstance(n.value, ast.Call)
+             and norm(n.value.func) == 'bytearray' and len(n.targets) == 1 and isinstance(n.targets[0], ast.Attribute)]
+    if len(store) != 1:
+        raise AnalysisError("MagicMemoryFL: expected exactly one bytearray backing store")
+    store_attr = store[0].targets[0].attr
     for meth in ('read_mem', 'write_mem'):
         f = fm.get_func(f'MagicMemoryFL.{meth}')
         ps = [a.arg for a in f.args.args]
-        if len(ps) != 3:
+        if len(ps) != 3 or f.args.vararg or f.args.kwarg:
             raise AnalysisError(f"MagicMemoryFL.{meth}: unexpected signature")
-        me, p_addr, p2 = ps
-        if meth == 'read_mem':
-            subs = [n.value for n in walk_no_nested(f) if isinstance(n, ast.Return) and isinstance(n.value, ast.Subscript)]
-        else:
-            subs = [t for n in walk_no_nested(f) if isinstance(n, ast.Assign) and norm(n.value) == p2 for t in n.targets
-                    if isinstance(t, ast.Subscript)]
-        if len(subs) != 1 or not isinstance(subs[0].slice, ast.Slice) or subs[0].slice.step is not None:
-            r.bad(fm, f'MagicMemoryFL.{meth}', norm(subs) if subs else 'no slice access',
-                  f"{meth} must {'return' if meth == 'read_mem' else 'assign'} one slice of the backing bytearray", f.lineno)
-            continue
-        sub = subs[0]
-        store = [n for n in ast.walk(fm.get_class('MagicMemoryFL')) if isinstance(n, ast.Assign) and isinstance(n.value, ast.Call)
-                 and norm(n.value.func) == 'bytearray']
-        if len(store) != 1 or norm(sub.value) != norm(store[0].targets[0]).replace(
-                norm(store[0].targets[0].value) + '.', me + '.', 1):
-            r.bad(fm, f'MagicMemoryFL.{meth}', norm(sub), "does not access the backing bytearray the requests operate on", f.lineno)
-            continue
+        me = ps[0]
         bad = None
         for a, z in itertools.product((0, 1, 7), (0, 1, 5)):
-            env = {p_addr: a, p2: z if meth == 'read_mem' else [0] * z}
-            it = Interp(env, funcs=dict(BASE_FUNCS, len=len))
-            r.evaluations += 2
-            lo = 0 if sub.slice.lower is None else it.ev(sub.slice.lower)
-            hi = None if sub.slice.upper is None else it.ev(sub.slice.upper)
-            if (lo, hi) != (a, a + z):
-                bad = (a, z, lo, hi)
+            img = ImgMem()
+            data = [('byte', k) for k in range(z)]
+            it = FnInterp({f'{me}.{store_attr}': img}, funcs=dict(BASE_FUNCS, len=len))
+            try:
+                got = it.apply(Closure(f, {f'{me}.{store_attr}': img}), [None, a, z if meth == 'read_mem' else data])
+                err = None
+            except Raised as ex:
+                got, err = None, ex.what
+            r.evaluations += 1
+            if meth == 'read_mem':
+                ok = err is None and got == ('image', a, a + z) and not img.writes
+                seen = f"returns {got!r}" + (f", writes {img.writes}" if img.writes else '')
+            else:
+                ok = err is None and img.writes == [(a, a + z, data)]
+                seen = f"writes {[(lo, hi) for lo, hi, _ in img.writes]}" + \
+                       ('' if all(v is data or v == data for _, _, v in img.writes) else ' with other data')
+            if not ok:
+                bad = (a, z, err or seen)
                 break
+        cons = f'{meth}: image[addr : addr+size]'
         if bad:
-            r.bad(fm, f'MagicMemoryFL.{meth}', norm(sub), f"for addr={bad[0]}, size={bad[1]} the slice is [{bad[2]}:{bad[3]}], "
-                  f"must be [{bad[0]}:{bad[0] + bad[1]}]: the image read back / loaded is shifted or truncated", f.lineno)
+            r.bad(fm, f'MagicMemoryFL.{meth}', cons, f"for addr={bad[0]}, size={bad[1]}: {bad[2]}; must "
+                  f"{'return' if meth == 'read_mem' else 'assign'} exactly bytes [{bad[0]}:{bad[0] + bad[1]}] of the backing "
+                  f"bytearray: the image read back / loaded is shifted or truncated", f.lineno)
         else:
-            r.ok(fm, f'MagicMemoryFL.{meth}', norm(sub))
+            r.ok(fm, f'MagicMemoryFL.{meth}', cons)
     # delegation from the two memories
     for vname, rel, cls in VARIANTS:
         m = repo.mod(rel)
